@@ -439,14 +439,9 @@ def tree_to_operations(tree: Number, output: Variable, output_operation: str, to
     output_variable = cast(TemporaryVariable | None, output_variable)
     assert output_variable is not None
 
-    can_inject_iop = output_operation != "" and operations[0][
-        0] is output_variable and operations[0][1].content == "" and operations[0][2].content != output.content
-    if can_inject_iop:
-        for left_var, op, _ in operations:
-            if left_var is output_variable:
-                op.content = output_operation
-                break
-        can_inject = True
+    # `output op= expression` applies op to the value of the whole expression: the value is
+    # computed into a temporary first (op cannot be merged into the first operation of the
+    # expression: `$x :+= $a * 2` is not `($x + $a) * 2`)
     if can_inject:
         output_variable.content = output.content
         output_variable.index = -1
